@@ -15,6 +15,11 @@ PRELUDE = ("fn show(v: int32) -> int32 { let _ = string_println(int32_to_string(
 EPILOGUE = "    0\n}\nfn main() { let _ = f(1); () }\n"
 
 
+# the skeleton as the body of the SECOND method of an impl block whose first method has parameters named like the skeleton's names
+# (every function body starts from an empty local scope: nothing of `first` may be visible in `f`)
+IMPL_PRELUDE = ("fn show(v: int32) -> int32 { let _ = string_println(int32_to_string(v)); v }\nstruct S { k: int32 }\nimpl S {\n"
+                "    fn first(self: S, x: int32, y: int32) -> int32 { x + y }\n    fn f(self: S, p: int32) -> int32 {\n")
+IMPL_EPILOGUE = "    0\n}\n}\nfn main() { let _ = S { k: 1 }.f(1); () }\n"
 GLOBALS = "fn x(q: int32) -> int32 { q }\nfn y(q: int32) -> int32 { q }\n"
 
 
@@ -22,15 +27,15 @@ GLOBALS = "fn x(q: int32) -> int32 { q }\nfn y(q: int32) -> int32 { q }\n"
 MANY = "    let z = 0;\n" + "".join("    let z = z + %d;\n" % i for i in range(1, 40))
 
 
-def render(toks, with_globals=False, many=False):
+def render(toks, with_globals=False, many=False, callpos=False, in_impl=False):
     """returns text, uses [(offset, name, expected_binder_id)], binders {id: offset};
     with_globals: top-level functions named like the local names exist too (a local binder must still win);
     many: the skeleton comes after 40 other local binders (resolution must not depend on how many binders are in scope)"""
-    pre = (GLOBALS if with_globals else "") + PRELUDE + (MANY if many else "")
+    pre = (GLOBALS if with_globals else "") + (IMPL_PRELUDE if in_impl else PRELUDE) + (MANY if many else "")
     out = [pre]
     pos = len(pre)
     uses, binders = [], {}
-    binders[1] = pre.index("f(p:") + 2
+    binders[1] = pre.index("p: int32) -> int32 {\n", pre.index("fn f("))
     stack = []
     ind = 1
 
@@ -49,7 +54,7 @@ def render(toks, with_globals=False, many=False):
         elif k == "use":
             emit(pad + "let _ = show(")
             uses.append((pos, t["x"], t["res"]))
-            emit(f"{t['x']});\n")
+            emit(f"{t['x']}(0));\n" if callpos else f"{t['x']});\n")
         elif k == "open":
             if t["k"] == "block":
                 variant = ("then", "else", "while")[(len(out) + len(toks)) % 3]
@@ -93,7 +98,7 @@ def render(toks, with_globals=False, many=False):
                 emit(pad + "    0\n" + pad + "}, (_, _) => { 0 } };\n")
             else:
                 emit(pad + "    0\n" + pad + f"}};\n{pad}let _ = g{cid}({cid});\n")
-    out.append(EPILOGUE)
+    out.append(IMPL_EPILOGUE if in_impl else EPILOGUE)
     return "".join(out), uses, binders
 
 
@@ -167,6 +172,51 @@ def run(tier, rep):
                     rep.violation(f"resolution:out-of-scope-use-resolves-to-{u['res']}:blocks=" + "+".join(kinds),
                                   {"program": text, "use": name, "offset": off, "expected": want, "hir_use": u}, replay={"toks": toks})
                     break
+    # ---- two more renderings of every skeleton: (a) next to the top-level functions again, every use in CALL position `x(0)` - a
+    # local in scope is the callee, whatever its type will turn out to be; (b) as the second method of an impl block whose first
+    # method has parameters x and y - a use the model calls unbound stays unresolved
+    extra_uses = 0
+    for tag, kw in (("call-position", {"with_globals": True, "callpos": True}), ("second-method-of-impl", {"in_impl": True})):
+        xreqs, xmeta = [], []
+        for i, toks in enumerate(progs):
+            text, uses, binders = render(toks, **kw)
+            xreqs.append({"id": i, "text": text})
+            xmeta.append((toks, text, uses, binders))
+        for (toks, text, uses, binders), a in zip(xmeta, gv_parallel("hir", xreqs, shards=NCPU)):
+            if a["verdict"] != "ok":
+                rep.violation(f"lowering-{a['verdict']}:{tag}", {"program": text, "answer": {k: a.get(k) for k in ('verdict', 'msg', 'at', 'diags')}}, replay={"toks": toks})
+                continue
+            real = {u["at"]: u for u in a["uses"] if u["x"] in ("x", "y", "p")}
+            off2id = {off: bid for bid, off in binders.items()}
+            hid2id = {b["id"]: off2id[b["at"]] for b in a["binds"] if b.get("at") is not None and b["at"] in off2id}
+            for b in a["binds"]:
+                if b.get("fn") == "f" and b.get("index") == 0 and "in_impl" not in kw:
+                    hid2id[b["id"]] = 1
+            kinds = sorted({t["k"] for t in toks if t["t"] == "open"})
+            for (off, name, exp) in uses:
+                u = real.get(off)
+                if u is None:
+                    rep.violation(f"use-not-found-in-hir:{tag}", {"program": text, "offset": off}, replay={"toks": toks})
+                    break
+                extra_uses += 1
+                if exp == 0:
+                    want = "global" if ("with_globals" in kw and name in ("x", "y")) else "unresolved"
+                    if u["res"] != want:
+                        rep.violation(f"resolution:{tag}:out-of-scope-use-resolves-to-{u['res']}:blocks=" + "+".join(kinds),
+                                      {"program": text, "use": name, "offset": off, "expected": want, "hir_use": u}, replay={"toks": toks})
+                        break
+                elif exp == 1 and "in_impl" in kw:
+                    # the parameter p of the method (method parameters are not in the export's binder list): a local that is none of the binders with a position
+                    if u["res"] != "local" or u.get("id") in hid2id:
+                        rep.violation(f"resolution:{tag}:wrong-binder:blocks=" + "+".join(kinds), {"program": text, "use": name, "offset": off, "expected": "parameter p", "hir_use": u}, replay={"toks": toks})
+                        break
+                else:
+                    got = hid2id.get(u.get("id"), -1) if u["res"] == "local" else u["res"]
+                    if got != exp:
+                        rep.violation(f"resolution:{tag}:" + ("top-level-function-beats-local-binder" if u["res"] == "global" else "wrong-binder") + ":blocks=" + "+".join(kinds),
+                                      {"program": text, "use": name, "offset": off, "expected_binder": exp, "got": got, "hir_use": u}, replay={"toks": toks})
+                        break
+    rep.coverage["uses_checked_in_call_position_and_in_second_method"] = extra_uses
     # ---- and after 40 other binders in the same body
     mreqs, mmeta = [], []
     for i, toks in enumerate(progs):
@@ -250,7 +300,7 @@ def run(tier, rep):
         rep.sample({"tokens": canon(toks), "expected_resolution": [e for _, _, e in uses], "program": text})
     rep.coverage.update({
         "states": r.distinct + r2.distinct, "transitions": r.generated + r2.generated,
-        "traces_validated_against_impl": len(progs) * 3,
+        "traces_validated_against_impl": len(progs) * 5,
         "action_coverage": r.coverage, "uses_checked": checked_uses, "uses_checked_next_to_same_named_functions": global_uses, "skeletons_with_shadowing": shadowing,
         "skeletons_with_unbound_use": unbound_cases, "full_compiles": len(cans), "full_accepted": accepted,
         "full_rejected_with_named_identifier": rejected, "model_config": cfg, "exhaustive": True,
